@@ -140,9 +140,14 @@ def run(chk, repo, tier):
         else:
             # the appended (row, col) slices in the loop
             ok, det, n = True, '', 0
-            for e in p.events:
-                if e.kind == 'write' and e.data.get('how') == 'method:append' and e.in_loop:
-                    v = e.data['args'][0]
+            cands = [e.data['args'][0] for e in p.events
+                     if e.kind == 'write' and e.data.get('how') == 'method:append' and e.in_loop]
+            ra = p.ret.single_atom() if isinstance(p.ret, Poly) else None
+            if ra is not None and is_app(ra, ('listcomp', 'genexp')) and len(ra[2]) == 2 and ra[2][1] == S('fields'):
+                cands.append(ra[2][0].single_atom()[1] if isinstance(ra[2][0], Poly) and ra[2][0].single_atom() is not None
+                             and ra[2][0].single_atom()[0] == 'val' else ra[2][0])
+            for v in cands:
+                if True:
                     if isinstance(v, Tup) and len(v) == 2 and all(isinstance(s, Slice) for s in v.items):
                         n += 1
                         ext = None
@@ -218,7 +223,8 @@ def run(chk, repo, tier):
     # the two cases are mirror images: the test that makes a "one element" is the test that makes b one
     def scalar_test(p, who):
         out = []
-        for c, pol, _ in p.conds:
+        from ..rules import literals
+        for c, pol in literals(p.conds):
             if pol and ('sym', who) in nf.value_atoms(c) and not ('sym', 'a_data' if who == 'b_data' else 'b_data') in nf.value_atoms(c):
                 out.append(c)
         return out
